@@ -231,6 +231,9 @@ var verifDeviations = []any{"<p>above</p><hr><p>below</p>", "a\n\n---\n\nb", nil
 	map[string]any{}, map[string]any{"type": "Note"}, map[string]any{"type": "Person"}, map[string]any{"type": "Person", "name": "no id"}, map[string]any{"id": "https://offline.invalid/z"},
 	map[string]any{"type": "Link"}, map[string]any{"type": "Link", "href": 7.0}, map[string]any{"type": "Collection", "items": "https://offline.invalid/single"}, map[string]any{"type": "Create"},
 	map[string]any{"type": "Note", "id": "https://other.invalid/foreign", "content": "foreign"},
+	/* several renditions of which a later one states its media type unusably (wrong JSON type, no media type at all) */
+	[]any{map[string]any{"type": "Link", "href": "https://offline.invalid/r1", "mediaType": "image/png", "width": 10.0, "height": 10.0}, map[string]any{"type": "Link", "href": "https://offline.invalid/r2", "mediaType": 5.0}},
+	[]any{map[string]any{"type": "Image", "url": "https://offline.invalid/r1", "mediaType": "image/png"}, map[string]any{"type": "Image", "url": "https://offline.invalid/r2", "mediaType": "garbage"}, map[string]any{"type": "Link", "href": "https://offline.invalid/r3", "mediaType": []any{"image/png"}}},
 	/* post-like objects that are refused for another reason than their type: deleted, or written by somebody elsewhere */
 	map[string]any{"type": "Tombstone", "id": "https://offline.invalid/gone", "formerType": "Note"},
 	map[string]any{"type": "Tombstone", "formerType": "Note", "deleted": "2024-01-02T03:04:05Z"},
